@@ -97,9 +97,9 @@ def wireLabels (ls : List (List UInt8)) : List UInt8 := ls.flatMap fun l => UInt
   One entry per line.  Records: `[owner] [ttl] [class] TYPEnnn \# len [hex] [;comment]`, fields
   separated by runs of blanks; the owner is an absolute name, a relative name (completed with the
   origin), `@` (the origin) — names in any mix of octet forms — or omitted (leading blanks: same
-  owner as before); TTL and class are written (decimal, `CLASSnnn`) or omitted.  Directives:
+  owner as before); TTL and class are written (decimal, `CLASSnnn`, in either order) or omitted.  Directives:
   `$ORIGIN <absolute name>`, `$TTL <decimal>`.  Blank and comment-only lines.  Not in this subset
-  (see C23.lean): class-then-TTL order, mnemonics, typed RDATA, parentheses, CRLF, a last line
+  (see C23.lean): mnemonics, typed RDATA, parentheses, CRLF, a last line
   without newline. -/
 
 inductive POwner where
@@ -113,6 +113,7 @@ structure PRecord where
   owner : POwner
   ttl : Option Nat
   cls : Option Nat
+  clsFirst : Bool          -- class written before the TTL (matters when both are written)
   ty : Nat
   rdata : List UInt8
   sep : List UInt8
@@ -133,14 +134,18 @@ def ownerText : POwner → List UInt8
   | .rel ls l => renderLabels (ls ++ [l])
   | .atSign => [64]
 
+/-- the TTL and class fields, each written or omitted, in either order -/
+def ttlClassText (sep : List UInt8) (ttl cls : Option Nat) (clsFirst : Bool) : List UInt8 :=
+  let t := match ttl with
+    | some t => decimal t ++ sep
+    | none => []
+  let c := match cls with
+    | some c => renderClass c ++ sep
+    | none => []
+  if clsFirst then c ++ t else t ++ c
+
 def renderRecord (p : PRecord) : List UInt8 :=
-  ownerText p.owner ++ p.sep ++
-  (match p.ttl with
-   | some t => decimal t ++ p.sep
-   | none => []) ++
-  (match p.cls with
-   | some c => renderClass c ++ p.sep
-   | none => []) ++
+  ownerText p.owner ++ p.sep ++ ttlClassText p.sep p.ttl p.cls p.clsFirst ++
   renderType p.ty ++ p.sep ++ 92 :: 35 :: (genericTail p.sep p.rdata ++ (p.trail ++ p.comment ++ [10]))
 
 def renderEntry : PEntry → List UInt8
